@@ -5,6 +5,17 @@
 //! Each witness prints one line: `REPRODUCED <name> <concrete failing input>` (the real code violates the
 //! property on that input) or `NOT-REPRODUCED <name> <what was tried>`.  A witness never decides that a
 //! property HOLDS — that is the verifier's job — it only supplies concrete failing inputs for replay.
+mod c01;
+mod c02;
+mod c03;
+mod c13;
+mod c15;
+mod c16b;
+mod c10b;
+mod c12b;
+mod c06;
+mod c07;
+mod c08;
 mod c05;
 mod c10;
 mod c12;
@@ -22,6 +33,17 @@ pub type W = (&'static str, fn() -> (bool, String));
 fn main() {
     let name = std::env::args().nth(1).unwrap_or_default();
     let mut all: Vec<W> = Vec::new();
+    all.extend(c01::witnesses());
+    all.extend(c02::witnesses());
+    all.extend(c03::witnesses());
+    all.extend(c13::witnesses());
+    all.extend(c15::witnesses());
+    all.extend(c16b::witnesses());
+    all.extend(c10b::witnesses());
+    all.extend(c12b::witnesses());
+    all.extend(c06::witnesses());
+    all.extend(c07::witnesses());
+    all.extend(c08::witnesses());
     all.extend(c05::witnesses());
     all.extend(c10::witnesses());
     all.extend(c12::witnesses());
